@@ -81,6 +81,14 @@ def make_cases(rng, n):
             for nm, fn in (('sha256', lambda x: hashlib.sha256(x).digest()), ('ripemd160', codec.ripemd160), ('hash160', lambda x: codec.ripemd160(hashlib.sha256(x).digest())),
                            ('hash256', lambda x: hashlib.sha256(hashlib.sha256(x).digest()).digest())):
                 add('%s %s' % (nm, h), nm, eq(fn(d).hex()), inline='%s(%s)' % (nm, h), inline_want=fn(d), opcode=(OP['SHA256' if nm == 'sha256' else nm.upper()], d))
+            # a [sub-script] as the argument: the function is applied to the compiled bytes - on its own and inside a bracketed script
+            # (without blanks: the interactive command line splits its arguments at blanks before anything is parsed)
+            sub = push_data(d[:60])
+            subtxt = '[%s]' % (hex_tok(d[:60]) if d[:60] else '0x')
+            nm, fn = rng.choice([('sha256', lambda x: hashlib.sha256(x).digest()), ('hash160', lambda x: codec.ripemd160(hashlib.sha256(x).digest()))])
+            if not any(ch in subtxt for ch in '()') and len(d[:60]) >= 5:
+                add('echo %s(%s)' % (nm, subtxt), nm + ':sub-script-argument', eq(fn(sub).hex()), inline='%s(%s)' % (nm, subtxt), inline_want=fn(sub))
+                add('echo [%s(%s) OP_DROP]' % (nm, subtxt), nm + ':sub-script-argument-inside-script', eq((push_data(fn(sub)) + bytes([OP_DROP])).hex()))
         elif which == 1:
             # string / integer arguments hash their ASCII / script-number bytes
             s = rng.choice(['abc', 'hello', 'TapLeaf', 'xyz!', 'The_quick_brown_fox'])
@@ -152,6 +160,16 @@ def make_cases(rng, n):
             addr = codec.b58check_encode(b'\x00' + h160)
             add('scriptpubkey-to-addr %s' % hex_tok(spk), 'scriptpubkey-to-addr', eq('"%s"' % addr), inline='spk_to_addr(%s)' % hex_tok(spk), inline_str=addr)
             add('addr-to-scriptpubkey %s' % addr, 'addr-to-scriptpubkey', eq(spk.hex()), inline='addr_to_spk(%s)' % addr, inline_want=spk)
+            # the version byte of a base58 address says what kind of output it is: 0x00 / 0x6f pay to a public-key hash,
+            # 0x05 / 0xc4 pay to a script hash (BIP13); anything else has no corresponding scriptPubKey
+            spk_sh = bytes([OP_HASH160, 20]) + h160 + bytes([OP_EQUAL])
+            add('addr-to-scriptpubkey %s' % codec.b58check_encode(b'\x6f' + h160), 'addr-to-scriptpubkey:testnet', eq(spk.hex()))
+            ver = rng.choice([5, 0xc4])
+            a_sh = codec.b58check_encode(bytes([ver]) + h160)
+            add('addr-to-scriptpubkey %s' % a_sh, 'addr-to-scriptpubkey:p2sh', eq(spk_sh.hex()), inline='addr_to_spk(%s)' % a_sh, inline_want=spk_sh)
+            add('scriptpubkey-to-addr %s' % hex_tok(spk_sh), 'scriptpubkey-to-addr:p2sh', eq('"%s"' % codec.b58check_encode(b'\x05' + h160)))
+            a_unk = codec.b58check_encode(bytes([rng.choice([1, 0x30, 0x80, 0xff])]) + h160)
+            add('addr-to-scriptpubkey %s' % a_unk, 'addr-to-scriptpubkey:unknown-version', lambda so, se, spk=spk, spk_sh=spk_sh: None if ((se + so).strip() and spk.hex() not in so and spk_sh.hex() not in so) else 'address of an unknown kind converted: %s | %s' % (so[:60], se[:60]))
         elif which == 9:
             a, b = rb(rng, rng.choice([5, 8, 20, 32])), rb(rng, rng.choice([5, 8, 20, 32]))
             if rng.random() < 0.3:
@@ -169,6 +187,10 @@ def make_cases(rng, n):
                 br = bi.to_bytes(32, 'little').rstrip(b'\x00')
                 add('add %s %s %s' % (hex_tok(ar), hex_tok(br), hex_tok(g)), 'add:group:sum-equals-modulus', eq(le32(0).hex()))
                 add('sub %s %s %s' % (hex_tok(ar), hex_tok(ar), hex_tok(g)), 'sub:group:equal-operands', eq(le32(0).hex()))
+            # operands that are not reduced yet: the result is still the sum / difference modulo the group
+            if len(a) >= 5 and len(b) >= 5 and rng.random() < 0.5:
+                add('add %s %s %s' % (hex_tok(a), hex_tok(b), hex_tok(g)), 'add:group:unreduced-operands', eq(le32((le(a) + le(b)) % gi).hex()))
+                add('sub %s %s %s' % (hex_tok(a), hex_tok(b), hex_tok(g)), 'sub:group:unreduced-operands', eq(le32((le(a) - le(b)) % gi).hex()))
             if len(ar) >= 5 and len(br) >= 5:
                 add('add %s %s %s' % (hex_tok(ar), hex_tok(br), hex_tok(g)), 'add:group', eq(le32((ai + bi) % gi).hex()))
                 add('sub %s %s %s' % (hex_tok(ar), hex_tok(br), hex_tok(g)), 'sub:group', eq(le32((ai - bi) % gi).hex()))
